@@ -22,6 +22,14 @@
 struct os_state g_os;
 size_t g_er_idx;
 uint8_t g_er_snap;
+/*
+ * Optional pointer monitor for read(2) inside a loop under contract: CBMC loses the points-to information of a
+ * pointer that a loop contract havocs (HOWTO trap 1).  When the harness sets g_rd_base (the address at which
+ * stream offset g_rd_base_pos is expected to land), read() PROVES that the buffer it is given is exactly
+ * g_rd_base + (pos - g_rd_base_pos) and stores through that equal pointer.
+ */
+uint8_t * g_rd_base;
+size_t g_rd_base_pos;
 
 int nondet_int(void);
 size_t nondet_size_t(void);
@@ -79,6 +87,12 @@ read(int fd, void * buf, size_t n)
 	if (r == 0) {
 		g_os.failed = 1;
 		return (0);
+	}
+	if (g_rd_base != NULL) {
+		__CPROVER_assert(__CPROVER_same_object(buf, g_rd_base) && __CPROVER_POINTER_OFFSET(buf) ==
+		    __CPROVER_POINTER_OFFSET(g_rd_base) + (g_os.pos - g_rd_base_pos),
+		    "read(2) monitor: the buffer is the next unfilled byte of the caller's buffer");
+		buf = g_rd_base + (g_os.pos - g_rd_base_pos);
 	}
 	__CPROVER_havoc_slice(buf, r);
 	if ((size_t)(g_er_idx - g_os.pos) < r)
